@@ -424,6 +424,22 @@ func checkSigningWrite(c *Ctx) {
 		return
 	}
 	c.seeFn(funcName(ss))
+	// the signing unit: StoreSignedCommit itself, or the same-package helper it calls that holds the detached-sign call
+	// (the final encoding of the signed commit stays in StoreSignedCommit and is counted there)
+	outer := ss
+	nOuterEnc := 0
+	for _, cl := range Calls(outer) {
+		if strings.HasSuffix(cl.Name, "object.Commit.Encode") {
+			nOuterEnc++
+		}
+	}
+	for _, h := range fnAndHelpers(ss, 1) {
+		for _, cl := range Calls(h) {
+			if strings.HasSuffix(cl.Name, "openpgp.ArmoredDetachSign") || strings.HasSuffix(cl.Name, "openpgp.DetachSign") {
+				ss = h
+			}
+		}
+	}
 	var sigStore *ssa.Store
 	for _, b := range ss.Blocks {
 		for _, ins := range b.Instrs {
@@ -444,6 +460,12 @@ func checkSigningWrite(c *Ctx) {
 			encs = append(encs, cl)
 		}
 	}
+	if ss != outer {
+		// one encoding inside the unit (what is signed), at least one in StoreSignedCommit (what is stored)
+		for i := 0; i < nOuterEnc; i++ {
+			encs = append(encs, nil)
+		}
+	}
 	if sigStore == nil || signCall == nil || len(encs) < 2 {
 		c.Violate("R8.5", "GoGitRepo.StoreSignedCommit:shape", w.FnPos(ss), "expected: encode, detach-sign, attach signature, encode again")
 	} else {
@@ -451,7 +473,7 @@ func checkSigningWrite(c *Ctx) {
 		// data signed = reader of the object encoded before the signature is attached
 		var firstEnc *Call
 		for _, e := range encs {
-			if instrDominates(e.Instr, sigStore) {
+			if e != nil && instrDominates(e.Instr, sigStore) {
 				firstEnc = e
 			}
 		}
@@ -491,12 +513,46 @@ func checkSigningWrite(c *Ctx) {
 		skParam := false
 		if p, ok := signCall.Args()[1].(*ssa.Parameter); ok && p.Parent() == ss {
 			skParam = true
+			if ss != outer {
+				// the helper's key parameter is StoreSignedCommit's own
+				skParam = false
+				for _, a := range argsThroughCaller(outer, ss, p) {
+					if op, isP := a.(*ssa.Parameter); isP && op.Parent() == outer {
+						skParam = true
+					}
+				}
+			}
 		}
 		c.Check(skParam, "R8.5", "GoGitRepo.StoreSignedCommit:signer", w.InstrPos(signCall.Instr), "signs with the key handed in", "signs with a key other than the signKey parameter")
 		var lastEnc *Call
 		for _, e := range encs {
+			if e == nil {
+				continue
+			}
 			if ok, _, _ := pathSearch(ss, sigStore, nil, func(i ssa.Instruction) bool { return i == e.Instr }, nil, false); ok {
 				lastEnc = e
+			}
+		}
+		if ss != outer {
+			// the encoding that is stored happens in StoreSignedCommit after the signing helper succeeded
+			for _, cl := range Calls(outer) {
+				if cl.Fn == nil || bodyOf(cl.Fn) != ss {
+					continue
+				}
+				hc, isCall := cl.Instr.(*ssa.Call)
+				if !isCall {
+					continue
+				}
+				for _, e := range Calls(outer) {
+					if strings.HasSuffix(e.Name, "object.Commit.Encode") {
+						e := e
+						after, _, _ := pathSearch(outer, hc, nil, func(i ssa.Instruction) bool { return i == e.Instr }, nil, false)
+						before, _, _ := pathSearch(outer, e.Instr, nil, func(i ssa.Instruction) bool { return i == ssa.Instruction(hc) }, nil, false)
+						if after && !before {
+							lastEnc = e
+						}
+					}
+				}
 			}
 		}
 		c.Check(lastEnc != nil, "R8.5", "GoGitRepo.StoreSignedCommit:stored-with-signature", w.InstrPos(sigStore), "the object stored is encoded after the signature is attached", "the stored commit is encoded before the signature is attached")
@@ -695,45 +751,35 @@ func checkVersionTimesFresh(c *Ctx) {
 		nvCall, _ = cl.Instr.(*ssa.Call)
 	}
 	if nvCall != nil {
-		for _, cl := range Calls(mut) {
-			if !strings.HasSuffix(cl.Name, ".Increment") || !strings.HasPrefix(cl.Name, "repository.") {
-				continue
-			}
-			c.Sites++
-			inc, _ := cl.Instr.(*ssa.Call)
-			if inc == nil {
-				continue
-			}
-			// the name incremented is the key of a range over AllClocks()
-			args := cl.Args()
-			overAll := false
-			if len(args) == 1 {
-				if ex, isEx := args[0].(*ssa.Extract); isEx {
-					if nx, isNx := ex.Tuple.(*ssa.Next); isNx && ex.Index == 1 {
-						if r, isR := nx.Iter.(*ssa.Range); isR && hasOriginCallAny(r.X, ".AllClocks") {
-							overAll = true
-						}
+		ok, w2 := ticksEveryClock(c, mut, []*ssa.BasicBlock{nvCall.Block()})
+		if ok {
+			formB = true
+		} else if w2 != "" {
+			why = w2
+		}
+		if !formB {
+			// the ticking extracted into a helper: it ticks every clock before each of its success returns, and the version is dated on its success edge
+			for _, cl := range Calls(mut) {
+				h := cl.Fn
+				if h != nil {
+					h = bodyOf(h)
+				}
+				cv, isCall := cl.Instr.(*ssa.Call)
+				if h == nil || !isCall || len(h.Blocks) == 0 || fnPkgPath(h) != fnPkgPath(mut) || !errResultOfCall(cv) {
+					continue
+				}
+				var targets []*ssa.BasicBlock
+				for _, r := range Returns(h) {
+					if returnKind(r) != RetError {
+						targets = append(targets, r.Block())
 					}
 				}
-			}
-			if !overAll {
-				why = "the clocks advanced are not all the clocks of AllClocks()"
-				continue
-			}
-			hdr := enclosingLoopHeader(inc.Block())
-			if hdr == nil {
-				continue
-			}
-			// unconditional inside the loop, error propagated, loop exit dominates newVersion, loop not left early
-			only, _ := onlyControlledBy(inc.Block(), func(cc controlCond) bool {
-				// conditions outside the loop (e.g. "something changed") are fine
-				return !inLoop(cc.If.Block(), hdr)
-			})
-			exits, _ := earlyLoopExits(mut)
-			if only && errorPropagated(inc, nil) && hdr.Dominates(nvCall.Block()) && !inLoop(nvCall.Block(), hdr) && len(exits) == 0 {
-				formB = true
-			} else {
-				why = "the clocks are not advanced unconditionally, with errors propagated, before the version is dated"
+				if len(targets) == 0 {
+					continue
+				}
+				if okH, _ := ticksEveryClock(c, h, targets); okH && dominatedBySuccess(cv, nvCall) {
+					formB = true
+				}
 			}
 		}
 	}
@@ -975,4 +1021,56 @@ func checkSigningKeyDiscipline(c *Ctx) {
 	}
 	c.Check(badC == "", "R8.8", "Key.loadPrivate:no-private-key-iff-not-found", w.FnPos(lp),
 		"errNoPrivateKey is answered exactly on the true outcome of err == repository.ErrKeyringKeyNotFound", badC)
+}
+
+// ticksEveryClock: f increments every clock of AllClocks() — unconditionally inside a loop over them that is
+// not left early, errors propagated — and that loop's exit dominates every target block.
+func ticksEveryClock(c *Ctx, f *ssa.Function, targets []*ssa.BasicBlock) (bool, string) {
+	why := ""
+	for _, cl := range Calls(f) {
+		if !strings.HasSuffix(cl.Name, ".Increment") || !strings.HasPrefix(cl.Name, "repository.") {
+			continue
+		}
+		c.Sites++
+		inc, _ := cl.Instr.(*ssa.Call)
+		if inc == nil {
+			continue
+		}
+		// the name incremented is the key of a range over AllClocks()
+		args := cl.Args()
+		overAll := false
+		if len(args) == 1 {
+			if ex, isEx := args[0].(*ssa.Extract); isEx {
+				if nx, isNx := ex.Tuple.(*ssa.Next); isNx && ex.Index == 1 {
+					if r, isR := nx.Iter.(*ssa.Range); isR && hasOriginCallAny(r.X, ".AllClocks") {
+						overAll = true
+					}
+				}
+			}
+		}
+		if !overAll {
+			why = "the clocks advanced are not all the clocks of AllClocks()"
+			continue
+		}
+		hdr := enclosingLoopHeader(inc.Block())
+		if hdr == nil {
+			continue
+		}
+		only, _ := onlyControlledBy(inc.Block(), func(cc controlCond) bool {
+			// conditions outside the loop (e.g. "something changed") are fine
+			return !inLoop(cc.If.Block(), hdr)
+		})
+		exits, _ := earlyLoopExits(f)
+		okT := true
+		for _, t := range targets {
+			if !hdr.Dominates(t) || inLoop(t, hdr) {
+				okT = false
+			}
+		}
+		if only && errorPropagated(inc, nil) && okT && len(exits) == 0 {
+			return true, ""
+		}
+		why = "the clocks are not advanced unconditionally, with errors propagated, before the version is dated"
+	}
+	return false, why
 }
